@@ -115,6 +115,13 @@ def render(spec):
             elif k == "neg":
                 kind, j = st[1], st[2]
                 p = import_path(spec, i, j)
+                if kind.endswith("_infn"):
+                    # the same statement inside a function body of the importer (never called: it must not compile)
+                    kind = kind[:-5]
+                    L.append("negf = fn() {")
+                    NEG_CLOSE = True
+                else:
+                    NEG_CLOSE = False
                 if kind == "import_hidden":
                     L.append("import hid%d from %s" % (j, p))
                 elif kind == "import_absent":
@@ -139,6 +146,8 @@ def render(spec):
                     L.append("%s.n%d %s= 1" % (mod_name(spec, j), j, sym))
                 elif kind == "assign_fn_member":
                     L.append("%s.bump%d = fn() -> int {\n\treturn 0\n}" % (mod_name(spec, j), j))
+                if NEG_CLOSE:
+                    L.append("}")
         L.append('print "leave %s"' % mod_name(spec, i))
         sources[i] = "\n".join(L) + "\n"
         files[mod_file(spec, i)] = sources[i]
@@ -203,6 +212,8 @@ def _neg_line(spec, i):
     for st in spec["mods"][i]["stmts"]:
         if st[0] == "neg":
             kind, j = st[1], st[2]
+            if kind.endswith("_infn"):
+                kind = kind[:-5]
             p = import_path(spec, i, j)
             return {"import_hidden_typed": "import hidt%d from %s" % (j, p), "import_hidden_const": "import hidc%d from %s" % (j, p),
                     "dot_hidden_typed": "print %s.hidt%d" % (mod_name(spec, j), j), "dot_hidden_const": "print %s.hidc%d" % (mod_name(spec, j), j),
@@ -220,6 +231,13 @@ def _neg_line(spec, i):
 def generate(rng, max_mods=5, negative=False):
     n = rng.range(2, max_mods)
     dirs = [""] + [rng.choice(["", "", "lib", "lib", "lib/sub"]) for _ in range(n - 1)]
+    if n >= 3 and dirs[1] == "" and rng.chance(1, 3):
+        # a directory that is called like the module next to it (m1.ms and m1/): `import m1` still means the file
+        for j in range(2, n):
+            if dirs[j] == "lib":
+                dirs[j] = "m1"
+            elif dirs[j] == "lib/sub":
+                dirs[j] = "m1/sub"
     spec = {"mods": [{"dir": d, "stmts": []} for d in dirs]}
     naming = rng.weighted([("default", 3), ("case_twins", 2), ("entry_twin", 1)])
     if naming == "case_twins":
@@ -301,6 +319,9 @@ def generate(rng, max_mods=5, negative=False):
             if "mod" in forms:
                 kinds += ["dot_hidden", "dot_hidden_typed", "dot_hidden_const", "assign_module", "assign_member", "opassign_member", "assign_fn_member", "opassign_member_sub",
                           "opassign_member_mul", "opassign_member_div", "opassign_member_mod"]
+                # the same write attempts from inside a function body of the importer
+                kinds += ["assign_member_infn", "assign_member_infn", "opassign_member_infn", "opassign_member_mod_infn",
+                          "assign_fn_member_infn", "dot_hidden_infn"]
             spec["mods"][i]["stmts"].append(["neg", rng.choice(kinds), j])
     for m in spec["mods"]:
         m.pop("imported", None)
@@ -340,7 +361,7 @@ def valid(spec):
             elif st[0] == "neg":
                 if not any(s[1] == st[2] for s in seen):
                     return False
-                if (st[1] in ("dot_hidden", "dot_hidden_typed", "dot_hidden_const", "assign_module", "assign_member", "assign_fn_member") or st[1].startswith("opassign_member")) and (st[2], "mod") not in seen:
+                if (st[1].endswith("_infn") or st[1] in ("dot_hidden", "dot_hidden_typed", "dot_hidden_const", "assign_module", "assign_member", "assign_fn_member") or st[1].startswith("opassign_member")) and (st[2], "mod") not in seen:
                     return False
         if not state and any(s[0] in ("defvia",) for s in m["stmts"]):
             return False
